@@ -76,12 +76,23 @@ def judge(prog, pop_descs, decisions, run, hoist=False):
 
 
 def execute(prog, pop_descs, decisions, text=None, configure=True,
-            monitor=False, hoist=False, **kw):
-    if configure:
-        setup(pop_descs, **kw)
+            monitor=False, hoist=False, made_under=None, **kw):
     if text is None:
         text = render.canonical(render.tokens(prog))
-    run = run_script(text, decisions, monitor=monitor)
+    job = None
+    if made_under is not None:
+        # the job object is made while another population (another light
+        # directory object) is in place, and runs after the real one has
+        # been configured: a job sees the lights there are when it runs
+        from bardolph.controller.script_job import ScriptJob
+        setup(made_under, **kw)
+        try:
+            job = ScriptJob.from_string(text)
+        except Exception:
+            job = None
+    if configure:
+        setup(pop_descs, **kw)
+    run = run_script(text, decisions, monitor=monitor, job=job)
     out = judge(prog, pop_descs, decisions, run, hoist=hoist)
     out.text = text
     return out
